@@ -1,0 +1,36 @@
+//go:build verif
+
+// Safety-only contracts (C04) for the govc verifier: the decoders below get no functional postcondition here; what is
+// checked is that no instruction in them can panic (index, slice, nil dereference, type assertion, make with a
+// negative or huge length, division by zero) and that every make/append of non-constant size stays below the
+// allocation cap, for every input stream. Comment-only.
+
+package bpv7
+
+// govc:func (*ProphetBlock).UnmarshalCbor property C04
+//@ requires r != nil
+//@ loop 0 invariant true
+
+// govc:func (*DTLSRBlock).UnmarshalCbor property C04
+//@ requires r != nil
+//@ loop 0 invariant true
+
+// govc:func (*PreviousNodeBlock).UnmarshalCbor property C04
+//@ requires r != nil
+
+// govc:func (*SignatureBlock).UnmarshalCbor property C04
+//@ requires r != nil
+
+// govc:func (*BinarySprayBlock).UnmarshalCbor property C04
+//@ requires r != nil
+
+// govc:func (*DtnEndpoint).UnmarshalCbor property C04
+//@ requires r != nil
+
+// govc:func (*Bundle).UnmarshalCbor property C04
+//@ requires r != nil
+//@ loop 0 invariant true
+
+// ReadAdministrativeRecord / NewAdministrativeRecordFromCbor and the WebSocket-agent dispatcher instantiate the
+// registered record type by reflection (reflect.New(t).Interface().(T)): outside the verifier's reach, the registry
+// contents are an assumption (DESIGN.md section 5); the record types themselves are under contract above.
